@@ -201,7 +201,8 @@ pub fn generate(seed: u64, tier: &str) -> Vec<Value> {
     out.push(json!({"id":"hm-max","code":200,"fields":[["x-a", rle(b"1")], ["set-cookie", rle(b"a=b")]],"hugeMax":true,"segs":[]}));
     // fields that describe the body's coding are reported like any other (only Transfer-Encoding is hop-by-hop)
     for (i, (n, v)) in [("content-encoding", "gzip"), ("content-encoding", "deflate"), ("Content-Encoding", "GZIP"), ("content-encoding", "gzip, identity"),
-        ("content-encoding", "br"), ("vary", "Accept-Encoding"), ("content-md5", "Q2hlY2sgSW50ZWdyaXR5IQ==")].iter().enumerate() {
+        ("content-encoding", "br"), ("vary", "Accept-Encoding"), ("content-md5", "Q2hlY2sgSW50ZWdyaXR5IQ=="),
+        ("content-type", "text/html;"), ("content-type", "text/plain; q=0.5"), ("content-type", "a/b;c"), ("content-type", ";")].iter().enumerate() {
         for code in [200usize, 404, 304] {
             out.push(json!({"id":format!("hce-{}-{}", i, code),"code":code,"method": if i % 2 == 0 { "GET" } else { "POST" },
                 "fields":[["x-before", rle(b"1")], [n.to_ascii_lowercase(), rle(v.as_bytes())], ["set-cookie", rle(b"a=b")], ["set-cookie", rle(b"c=d")]],
